@@ -2,6 +2,7 @@
 import io
 import os
 import shutil
+import time
 import traceback
 
 from vf import common
@@ -55,6 +56,10 @@ def gen(r):
         nm = len(locations)
         positions = [tuple(l[t] for t, _ in axes) for l in locations]
     same_leaf_dirs = r.random() < 0.5
+    # master names as designers write them: one name may be the tail of another (semibold / bold)
+    pools = [["regular", "semibold", "bold", "extrabold"], ["extralight", "light", "regular", "bold"], ["semicondensed", "condensed", "normal", "wide"], ["m0", "m1", "m2", "m3"], ["m0", "m1", "m2", "m3"]]
+    names = r.choice(pools)[:nm]
+    edit_master = r.random() < 0.35
     vb = r.choice([100, 128, 1000])
     upem = r.choice([1000, 1024, 2048])
     asc = int(upem * r.choice([0.8, 0.9, 0.95]))
@@ -87,7 +92,7 @@ def gen(r):
                     per_master.append({"x": j(base["x"]), "y": j(base["y"]), "w": abs(j(base["w"])) + 0.05, "h": abs(j(base["h"])) + 0.05, "pts": [(j(x), j(y)) for x, y in base["pts"]], "g": [j(v) for v in base["g"][:4]] + [abs(j(base["g"][4])) + 0.05]})
             shapes.append({"kind": kind, "fill": fill, "col": col, "col2": col2, "op": op, "params": per_master})
         glyphs.append(shapes)
-    return {"positions": positions, "axes": axes, "locations": locations, "same_leaf_dirs": same_leaf_dirs, "default": default, "vb": vb, "upem": upem, "asc": asc, "desc": desc, "reuse": reuse, "glyphs": glyphs}
+    return {"positions": positions, "axes": axes, "locations": locations, "same_leaf_dirs": same_leaf_dirs, "names": names, "edit_master": edit_master, "default": default, "vb": vb, "upem": upem, "asc": asc, "desc": desc, "reuse": reuse, "glyphs": glyphs}
 
 
 def svg_for(spec, g, m):
@@ -140,13 +145,16 @@ def run_case(case):
             "axis": {tag: {"name": nm_, "default": spec["default"][tag]} for tag, nm_ in spec["axes"]},
             "master": {},
         }
+        mdirs = []
         for m, loc in enumerate(spec["locations"]):
-            sub = f"m{m}/svg" if spec["same_leaf_dirs"] else f"m{m}"
+            mname = spec["names"][m]
+            sub = f"{mname}/svg" if spec["same_leaf_dirs"] else f"{mname}"
             d = root / sub
             d.mkdir(parents=True)
+            mdirs.append(d)
             for g, n in enumerate(names):
                 (d / n).write_text(svg_for(spec, g, m))
-            cfg["master"][f"m{m}"] = {"style_name": "M%d" % m, "position": dict(loc), "srcs": [f"{sub}/*.svg"]}
+            cfg["master"][mname] = {"style_name": "M%d" % m, "position": dict(loc), "srcs": [f"{sub}/*.svg"]}
         (root / "vf.toml").write_text(toml.dumps(cfg))
         rcode, out = cli.nanoemoji(["--build_dir", str(root / "build"), "vf.toml"], root, cli.env_for(events=root / "ev.jsonl"), timeout=600)
         c["vf_builds"] = 1
@@ -191,9 +199,8 @@ def run_case(case):
             ev.layers = t.LayerList.Paint if t.LayerList else []
             return ev, norm
 
-        for m, pos in enumerate(spec["locations"]):
+        def check_master(m, pos, st, label=""):
             ev, norm = at(pos)
-            st = statics[m]
             evs = colreval.Evaluator(st.font)
             for g in range(len(names)):
                 cp = 0x1F600 + g
@@ -206,7 +213,7 @@ def run_case(case):
                 adv_v = ev.gs[nv[0]].width
                 adv_s = st.font["hmtx"][ns[0]][0]
                 if abs(adv_v - adv_s) > 0.5:
-                    res["violations"].append(dict(ctx, what=f"advance at master {pos}: VF {adv_v}, static {adv_s}"))
+                    res["violations"].append(dict(ctx, what=f"advance at master {pos}{label}: VF {adv_v}, static {adv_s}"))
                 try:
                     lv = [l for l in ev.display_list(nv[0]) if l.contours]
                     ls = [l for l in evs.display_list(ns[0]) if l.contours]
@@ -215,7 +222,7 @@ def run_case(case):
                     continue
                 pr, stt = compare.compare_layers(ls, lv, tol, check_palette=False)
                 for p in pr:
-                    p["what"] = f"VF at master {pos} differs from the static build of that master: " + p["what"]
+                    p["what"] = f"VF at master {pos}{label} differs from the static build of that master: " + p["what"]
                     p.update(ctx)
                     res["violations"].append(p)
                 for k in ("max_h", "max_colour_excess"):
@@ -226,6 +233,9 @@ def run_case(case):
                     res["violations"].append(dict(ctx, what=f"clip box presence differs at master {pos}: VF {bv}, static {bs}"))
                 if pos == spec["default"]:
                     c["default_location_checked"] = 1
+
+        for m, pos in enumerate(spec["locations"]):
+            check_master(m, pos, statics[m])
         # interior locations: the clip box in force contains the geometry there
         if len(spec["axes"]) == 1:
             ordered = sorted(spec["locations"], key=lambda l: l["wght"])
@@ -254,6 +264,31 @@ def run_case(case):
                         res["maxes"]["max_interior_protrusion"] = max(res["maxes"].get("max_interior_protrusion", -1e9), outby)
                         if outby > e:
                             res["violations"].append(dict(ctx, what=f"at {pos} the clip box in force {tuple(round(v, 1) for v in box)} cuts interpolated geometry {tuple(round(v, 1) for v in bb)} by {outby:.2f}"))
+        # a later run in the same build directory, after one non-default master's artwork was edited: the font must
+        # reproduce the *edited* master at its location
+        if spec["edit_master"] and not res["violations"]:
+            cands = [m for m, l in enumerate(spec["locations"]) if l != spec["default"]]
+            m = cands[case["i"] % len(cands)]
+            import copy
+
+            spec2 = copy.deepcopy(spec)
+            for gl in spec2["glyphs"]:
+                for sh in gl:
+                    pm = sh["params"][m]
+                    pm["x"], pm["y"] = pm["x"] + 0.04, max(0.02, pm["y"] - 0.03)
+                    pm["pts"] = [(x + 0.04, y - 0.03) for x, y in pm["pts"]]
+            time.sleep(0.02)
+            for g, n in enumerate(names):
+                (mdirs[m] / n).write_text(svg_for(spec2, g, m))
+            rcode2, out2 = cli.nanoemoji(["--build_dir", str(root / "build"), "vf.toml"], root, cli.env_for(events=root / "ev2.jsonl"), timeout=600)
+            c["reruns_after_master_edit"] = 1
+            if rcode2 != 0:
+                res["violations"].append(dict(ctx, what=f"re-run after editing master {spec['names'][m]} failed (exit {rcode2})", output=out2[:2000]))
+            else:
+                vf = TTFont(str(root / "build" / "VF.ttf"), lazy=False)
+                colr = vf["COLR"]
+                srcs2 = [{"svg": svg_for(spec2, g, m), "codepoints": [0x1F600 + g]} for g in range(len(names))]
+                check_master(m, spec["locations"][m], inproc.build(srcs2, scfg), label=f" (after editing master {spec['names'][m]} and re-running in the same build directory)")
         # how variable is it
         nvar = 0
         for paint in ev.base.values():
@@ -288,6 +323,8 @@ def finish(agg):
     for k in ("glyph_locations_compared", "interior_boxes_checked", "default_location_checked", "variable_clip_boxes"):
         if c.get(k, 0) == 0:
             inc.append(f"deciding monitor/branch never reached: {k}")
+    if c.get("reruns_after_master_edit", 0) == 0:
+        inc.append("deciding branch never reached: reruns_after_master_edit")
     for k in ("axes=2", "axes-declared-out-of-tag-order", "same-leaf-dirs", "masters=3"):
         if agg["tags"].get(k, 0) == 0:
             inc.append(f"configuration class never built: {k}")
